@@ -153,6 +153,40 @@ func accesses(n ast.Node, outer map[string]bool, local bool) (w, r map[string]bo
 	return
 }
 
+// leanDecisionCond turns the Go condition of the final `if` into a Lean Bool expression over `v : Vars`.
+func leanDecisionCond(e ast.Expr) string {
+	vars := map[string]string{"decisionGetTier": "v.getTier", "decisionPolicy": "v.policy", "decisionTierWildcard": "v.wildcard"}
+	consts := map[string]string{"k8sauth.DecisionAllow": "Decision.allow", "k8sauth.DecisionDeny": "Decision.deny", "k8sauth.DecisionNoOpinion": "Decision.noOpinion"}
+	switch x := e.(type) {
+	case *ast.ParenExpr:
+		return "(" + leanDecisionCond(x.X) + ")"
+	case *ast.UnaryExpr:
+		if x.Op == token.NOT {
+			return "(!" + leanDecisionCond(x.X) + ")"
+		}
+	case *ast.BinaryExpr:
+		switch x.Op {
+		case token.LAND:
+			return "(" + leanDecisionCond(x.X) + " && " + leanDecisionCond(x.Y) + ")"
+		case token.LOR:
+			return "(" + leanDecisionCond(x.X) + " || " + leanDecisionCond(x.Y) + ")"
+		case token.EQL, token.NEQ:
+			l, r := vars[str(x.X)], consts[str(x.Y)]
+			if l == "" || r == "" {
+				l, r = vars[str(x.Y)], consts[str(x.X)]
+			}
+			if l != "" && r != "" {
+				if x.Op == token.EQL {
+					return "(" + l + " == " + r + ")"
+				}
+				return "(" + l + " != " + r + ")"
+			}
+		}
+	}
+	die("final decision condition has a part the translator cannot express: %s", str(e))
+	return ""
+}
+
 func keys(m map[string]bool) []string {
 	var o []string
 	for k := range m {
@@ -285,8 +319,10 @@ func main() {
 	// shape of the decision and of the three queries
 	wantIf := "decisionGetTier == k8sauth.DecisionAllow && (decisionPolicy == k8sauth.DecisionAllow || decisionTierWildcard == k8sauth.DecisionAllow)"
 	okIf := false
+	genCond := ""
 	for _, st := range after {
-		if is, ok := st.(*ast.IfStmt); ok && str(is.Cond) == wantIf {
+		if is, ok := st.(*ast.IfStmt); ok && strings.Contains(str(is.Cond), "decisionGetTier") {
+			genCond = leanDecisionCond(is.Cond)
 			last := is.Body.List[len(is.Body.List)-1]
 			if str(last) != "return nil" {
 				die("allow branch does not `return nil`")
@@ -294,8 +330,9 @@ func main() {
 			okIf = true
 		}
 	}
-	if !okIf {
-		die("final decision expression changed (want %s)", wantIf)
+	_ = wantIf
+	if !okIf || genCond == "" {
+		die("final decision `if` (over the three decision variables, allow branch `return nil`) not found")
 	}
 	lastSt := after[len(after)-1]
 	if !strings.HasPrefix(str(lastSt), "return k8serrors.NewForbidden(") {
@@ -376,6 +413,7 @@ func main() {
 	}
 	b.WriteString("]\n")
 	fmt.Fprintf(&b, "/-- ids of the three decision variables written by goroutines 0,1,2 and read by the final `if` -/\ndef decisionVars : List Nat := [%d, %d, %d]\n", id("decisionGetTier"), id("decisionPolicy"), id("decisionTierWildcard"))
+	fmt.Fprintf(&b, "/-- condition of the final `if … { return nil }` after wg.Wait(), regenerated from the source -/\ndef allowedCond (v : Vars) : Bool := %s\n", genCond)
 	b.WriteString("\nend CalicoVerif.C34.Gen\n")
 	if err := os.WriteFile(out, []byte(b.String()), 0o644); err != nil {
 		die("write: %v", err)
